@@ -203,3 +203,23 @@ From Verif Require Import Proofs.XWfEmbed.
 Theorem C04_struct_wf_conservative : forall st e s, xwf (embed_env st e) (embed s) = wf_schema e s.
 Proof. exact xwf_embed. Qed.
 Print Assumptions C04_struct_wf_conservative.
+
+(* D81 (fixed): a map whose KEY is a float NaN - a key that is not equal to itself.  The theorems above range over every
+   gval, such maps included; the model walks the ENTRIES of a map (the value is at hand with its key), which is what the
+   repaired code does with MapRange(); the code before the fix looked the value up again with MapIndex(k), found nothing
+   under a NaN key and panicked in Interface().  What the operations answer on map[any]any{NaN: 1}: *)
+Definition ex_nan_map : gval := VMap t_any_map false [(VFloat TF64 FNaN, vi64 1)].
+Definition ex_str_any_map : schema := SMap (SString None None None) SAny None None.
+Definition ex_int_any_map : schema := SMap (SInt None None None) SAny None None.
+Example C04_nan_key_instances :
+  is_ok (unser [] ex_pu 5 ex_env SAny ex_nan_map) = true /\
+  is_ok (validate [] ex_pu 5 ex_env SAny ex_nan_map) = true /\
+  is_ok (serialize [] ex_pu 5 ex_env SAny ex_nan_map) = true /\
+  is_err (compat [] ex_pu 5 ex_env SAny ex_nan_map) = true /\
+  is_ok (unser [] ex_pu 5 ex_env ex_str_any_map ex_nan_map) = true /\
+  is_err (validate [] ex_pu 5 ex_env ex_str_any_map ex_nan_map) = true /\
+  is_err (unser [] ex_pu 5 ex_env ex_int_any_map ex_nan_map) = true /\
+  is_err (unser [] ex_pu 5 ex_env (SObject "o" false [("a", ex_prop SAny None false)]) ex_nan_map) = true /\
+  is_ok (unser [] ex_pu 5 ex_env (SObject "o" false [("a", ex_prop SAny None false)])
+           (VMap t_any_map false [(vstr "a", ex_nan_map)])) = true.
+Proof. vm_compute. repeat split; reflexivity. Qed.
